@@ -136,10 +136,50 @@ fn hist_model(plan: &Plan, built: &Built, ops: &[Vec<u64>]) -> (&'static str, Ve
 
 // ------------------------------------------------------------------ C10
 
-fn gen_history(rng: &mut Rng, nfiles: usize, n: usize) -> Vec<Vec<u64>> {
+/// For each file, the places of its content in the block stream: (stream offset, file offset, length).
+/// (FileStart = 17 + name, FileContent header = 17, EndOfFile = 41; files start just before their first piece.)
+pub fn content_layout(plan: &Plan) -> Vec<Vec<(usize, usize, usize)>> {
+    let n = plan.names.len();
+    let mut out = vec![Vec::new(); n];
+    let mut foff = vec![0usize; n];
+    let mut started = vec![false; n];
+    let mut pos = 0usize;
+    let last_piece: Vec<Option<usize>> = (0..n).map(|f| plan.pieces.iter().rposition(|p| p.0 == f)).collect();
+    for (k, (f, piece)) in plan.pieces.iter().enumerate() {
+        if !started[*f] {
+            started[*f] = true;
+            pos += 17 + plan.names[*f].len();
+        }
+        if !piece.is_empty() {
+            pos += 17;
+            out[*f].push((pos, foff[*f], piece.len()));
+            pos += piece.len();
+            foff[*f] += piece.len();
+        }
+        if last_piece[*f] == Some(k) {
+            pos += 41;
+        }
+    }
+    out
+}
+
+fn gen_history(rng: &mut Rng, plan: &Plan, n: usize) -> Vec<Vec<u64>> {
+    let nfiles = plan.names.len();
+    let layout = content_layout(plan);
+    let (ch, bl) = if cfg!(feature = "scaled") { (64usize, 256usize) } else { (131072, 4 << 20) };
     let mut ops = Vec::new();
     for _ in 0..n {
         let i = if rng.below(12) == 0 { nfiles as u64 } else { rng.below(nfiles as u64) };
+        // abandon a file exactly where the stream crosses a chunk / block boundary
+        if rng.below(4) == 0 && (i as usize) < nfiles && !layout[i as usize].is_empty() {
+            let (so, fo, len) = *rng.pick(&layout[i as usize]);
+            let unit = *rng.pick(&[ch, bl, bl]);
+            let target = (so / unit + 1) * unit;
+            if target <= so + len {
+                ops.push(vec![2, i, (fo + target - so) as u64]);
+                continue;
+            }
+        }
         match rng.below(10) {
             0 => ops.push(vec![0]),
             1 | 2 => ops.push(vec![1, i]),
@@ -171,7 +211,7 @@ pub fn c10_cases(rng: &mut Rng, tier: &str, out: &mut Out) {
         let Ok(built) = build(rng, &plan) else { continue };
         let total: usize = built.contents.iter().map(|c| c.len()).sum();
         let hl = if tier == "thorough" { rng.range(4, 30) } else { rng.range(4, 14) } as usize;
-        let ops = gen_history(rng, plan.names.len(), hl);
+        let ops = gen_history(rng, &plan, hl);
         let privs = reader_keys(&plan, &built);
         // oracle: op k in the history == op k alone on a fresh reader
         let rows = run_history(&built.bytes, &privs, &plan.names, &ops, false);
